@@ -7,7 +7,7 @@ from functools import partial
 from typing import TYPE_CHECKING, Any, Awaitable, Callable, Coroutine, NoReturn
 
 from repid._asyncify import asyncify
-from repid._utils import _NoAction
+from repid._utils import _CurrentDelivery, _NoAction
 from repid.dependencies.protocols import DependencyKind
 from repid.logger import logger
 from repid.message import Message
@@ -73,7 +73,8 @@ class MessageDependency(Message):
     async def _dispose(self, broker_call: Coroutine) -> None:
         # an eager response disposes of the message: from now on the worker must not give it back
         # when it cancels the actor, and the call runs to its end whatever happens to the actor
-        self._connection._disposing.add(self.key.id_)
+        if _CurrentDelivery.get() is not None:
+            self._connection._disposing.add(_CurrentDelivery.get())
         call = asyncio.ensure_future(broker_call)
         try:
             await asyncio.shield(call)
@@ -83,7 +84,7 @@ class MessageDependency(Message):
         finally:
             if call.done() and (call.cancelled() or call.exception() is not None):
                 # the call did not go through: the message has not been disposed of
-                self._connection._disposing.discard(self.key.id_)
+                self._connection._disposing.discard(_CurrentDelivery.get())
 
     def add_callback(self, fn: Callable[[], Any | Awaitable[Any]]) -> None:
         self._callbacks.append(asyncify(fn))
